@@ -6,4 +6,13 @@ PROPS = {
     "C08": {"run": "^TestC08$", "level": "proof",
             "assumptions": ["participle's behaviour on this grammar is modelled by a hand-written lexer/parser and compared differentially",
                             "non-ASCII characters outside string literals are outside the modelled alphabet (skipped)"]},
+    "C01": {"run": "^TestC01$", "level": "proof"},
+    "C02": {"run": "^TestC02$", "level": "proof"},
+    "C03": {"run": "^TestC03$", "level": "proof"},
+    "C04": {"run": "^TestC04$", "level": "proof"},
+    "C05": {"run": "^TestC05$", "level": "proof"},
+    "C06": {"run": "^TestC06$", "level": "proof"},
+    "C13": {"run": "^TestC13$", "level": "proof"},
+    "C14": {"run": "^TestC14$", "level": "proof"},
+    "C15": {"run": "^TestC15$", "level": "proof"},
 }
